@@ -430,7 +430,7 @@ func (r *FnResult) Discharge(opt SolveOptions) {
 	// The expensive stages (cut, longer timeout) are spent on the first few obligations that need them:
 	// a function with many undischarged obligations is reported as failing either way.
 	var deepMu sync.Mutex
-	deepLeft := 6
+	deepLeft := 4
 	longLeft := 2
 	takeLong := func() bool {
 		deepMu.Lock()
